@@ -35,7 +35,19 @@ Definition two31 : Z := 2147483648.
 Definition fast_atoi_u16 (s : list N) : N := Z.to_N (fast_atoi_mod two16 s).
 Definition fast_atoi_u32 (s : list N) : N := Z.to_N (fast_atoi_mod two32 s).
 Definition to_i32 (z : Z) : Z := let r := (z mod two32)%Z in if (r <? two31)%Z then r else (r - two32)%Z.
-Definition fast_atoi_i32 (s : list N) : Z := to_i32 (fast_atoi_mod two32 s).
+(* fast_atoi<int> BEFORE /repo a8219b1 (no sign handling: "-5" gives -25), kept for witnesses *)
+Definition fast_atoi_i32_orig (s : list N) : Z := to_i32 (fast_atoi_mod two32 s).
+(* fast_atoi<T> for signed T since /repo a8219b1: a leading '-' is consumed and the digits are
+   accumulated downwards (retval = retval * 10 - digit), otherwise upwards; still no digit
+   test; results outside the int range wrap in the model (signed overflow in the C++).  The
+   unsigned instantiations (fast_atoi_u16 / fast_atoi_u32) are unchanged. *)
+Definition atoi_step_neg (m : Z) (acc : Z) (c : N) : Z := ((acc * 10 - (schar c - 48)) mod m)%Z.
+Definition fast_atoi_i32 (s : list N) : Z :=
+  match cstr s with
+  | c :: r => if c =? 45 then to_i32 (fold_left (atoi_step_neg two32) r 0%Z)
+              else to_i32 (fold_left (atoi_step two32) (c :: r) 0%Z)
+  | [] => 0%Z
+  end.
 
 (* itoa(value, result, 10) for a non-negative value: decimal digits, most significant first.
    Fuel = bit size + 1 >= number of decimal digits (n < 2^(N.size n)). *)
